@@ -18,7 +18,10 @@ LCM(a, b) == (a * b) \div GCD(a, b)
 QCase(t, q) == [xs |-> t.xs, ys |-> t.ys, q |-> q,
                 dlin |-> LCM(Den(Linear(t.xs, t.ys, Q(q), TRUE)), 2),
                 dspl |-> LCM(LCM(Den(Spline(t.xs, t.ys, Q(q))), Den(SplineD1(t.xs, t.ys, Q(q)))), Den(SplineD2(t.xs, t.ys, Q(q)))),
-                dint |-> IF Len(t.xs) >= 2 THEN Den(SplineIntegral(t.xs, t.ys, RI(t.xs[1] - 1), Q(q))) * 4 ELSE 4]
+                dint |-> IF Len(t.xs) >= 2 THEN Den(SplineIntegral(t.xs, t.ys, RI(t.xs[1] - 1), Q(q))) * 4 ELSE 4,
+                \* two more lower bounds: half a unit above the last node and half a unit above the first node
+                dint2 |-> Den(SignedIntegral(t.xs, t.ys, <<2 * t.xs[Len(t.xs)] + 1, 2>>, Q(q))) * 4,
+                dint3 |-> Den(SignedIntegral(t.xs, t.ys, <<2 * t.xs[1] + 1, 2>>, Q(q))) * 4]
 Cases == UNION {{QCase(t, q) : q \in Queries(t.xs)} : t \in Tables}
 Number(S) == LET s == SetToSeq(S) IN [i \in 1..Len(s) |-> [id |-> i] @@ s[i]]
 ASSUME Theorems
